@@ -96,6 +96,14 @@ CLAIMED = {
         "Lua through offline stand-ins; expandTemplate's equivalent call is the all-named form; callParserFunction gets plain strings.",
         "DESIGN.md §5 C08",
     ),
+    "C15": (
+        ["Nowiki", "Gen_Nowiki", "Trace_Nowiki"],
+        "TLA+ statement of nowiki quoting (documented entity table, Quote/Decode), required expansion and parse leaf for five embedding contexts, and comment deletion; TLC checks recoverability/inertness laws and enumerates all payloads; "
+        "every case run through the real expand()/parse() with a template_fn spy; random longer payloads recorded and validated by TLC",
+        "Bounded-exhaustive over payloads of <=2 (quick) / <=3 (thorough) tokens from a 27-token alphabet x 5 contexts (+ template-body context), comment documents, and TLC trace validation of random payloads up to 12 tokens over a 47-token alphabet.",
+        "payloads over the wikitext token alphabet (no private-use placeholder characters, a documented assumption of the package); comment payloads without '-->' and nowiki tags.",
+        "DESIGN.md §5 C15",
+    ),
 }
 NOT_YET = "check not built yet in this round (see DESIGN.md §10 build order); nothing is claimed for it"
 
